@@ -21,6 +21,10 @@ def tasks(tier, seed):
     for d in (2, 3):
         for part in partitions(range(d)):
             t.append(("contracts.prox", "task", ("group_linear", (d, 2, part), seed), to, f"group_linear[d={d},{part}]"))
+    # a group is a SET of features: listed in any order, interleaved with other groups, it must still be shrunk as a whole
+    t.append(("contracts.prox", "task", ("group_linear", (4, 1, [[0, 3, 2], [1]]), seed), to, "group_linear[d=4,[[0,3,2],[1]]]"))
+    t.append(("contracts.prox", "task", ("group_linear", (4, 1, [[2, 0], [3, 1]]), seed), to, "group_linear[d=4,[[2,0],[3,1]]]"))
+    t.append(("contracts.prox", "task", ("group_hier", (3, 1, 1, [[2, 0], [1]]), seed), to, "group_hier[d=3,[[2,0],[1]]]"))
     for part in partitions(range(2)):
         t.append(("contracts.prox", "task", ("group_hier", (2, 1, 1, part), seed), to, f"group_hier[d=2,{part}]"))
     t.append(("contracts.prox", "task", ("hier", (1, 2, "generic", 1), seed), to, "hier[k=1,h=2] (feasibility: hierarchy)"))
@@ -34,7 +38,8 @@ def tasks(tier, seed):
 
 
 def extra(led, tier, seed):
-    from contracts import sparse_sel
+    from contracts import sparse_sel, prox_native
+    led.extend(prox_native.unordered_groups(seed))
     led.extend(sparse_sel.update_weights_flow())
     led.extend(sparse_sel.fit_groups_flow())
     led.extend(sparse_sel.check_groups_exhaustive(4 if tier == "thorough" else 3))
